@@ -11,8 +11,9 @@ Quantifier: for all configurations, models, demographies, end times, and moment 
 Proved: on every block-counting state of mass n the SFS rewards sum to the branch-length reward, the
 size-weighted sum is n times the height reward, folded = fold of unfolded; first moments are linear
 in the reward (so the identities pass to means). Second-order versions (covariances sum to the
-variance) follow from multilinearity, proved for k = 1 only so far (partial); agreement of lineage-
-and block-counting moments follows from both being lumpings of one labelled process.
+variance, C11_sum_cov) follow from multilinearity in every slot, proved for all orders
+(accumVal_slot_linear); agreement of lineage- and block-counting moments follows from both being
+lumpings of one labelled process.
 
 This file restates the theorems the property rests on (full statements; proofs are in PGProofs/).
 Generated once by harness/mkprops.py from harness/props_table.py + PGProperties/extra/C11.lean.in; committed as source.
